@@ -131,7 +131,8 @@ class AdditionalNameWrapper(Object):
     def get_attr(self, ctx, name):
         # type: (EvalCtx, str) -> Object | Name | None
         if self.value:
-            return self.value.get_attr(ctx, name) or self._names.get(name)
+            return (self.value._attrs.get(name) or self._names.get(name)
+                    or self.value.get_attr(ctx, name))
         return None
 
 
